@@ -381,7 +381,7 @@ def can_fast_forward(repo: "BaseRepo", c1: ObjectID, c2: ObjectID) -> bool:
 
     # Algorithm: Find the common ancestor
     try:
-        min_stamp = lookup_stamp(c1)
+        lookup_stamp(c1)
     except KeyError:
         # If c1 doesn't exist in the object store, we can't determine fast-forward
         # This can happen in shallow clones where c1 is a missing parent
@@ -397,7 +397,8 @@ def can_fast_forward(repo: "BaseRepo", c1: ObjectID, c2: ObjectID) -> bool:
         c1,
         [c2],
         lookup_stamp,
-        min_stamp=min_stamp,
+        # No commit-time cut-off here: with clock skew an ancestor of c2 that
+        # is older than c1 can still have c1 as its ancestor.
         shallows=parents_provider.shallows,
     )
     return lcas == [c1]
